@@ -69,6 +69,12 @@ def _all():
                 yield {"fam": "planted", "L": [tp], "G": [t]}
                 yield {"fam": "planted", "L": [tp, [{"y": 1}, 5]], "G": [t]}
                 yield {"fam": "planted", "L": [t, tp], "G": []}
+    # terms with tiny but non-zero coefficients are constraints in their own right and must come back unchanged
+    for eps in (5e-7, -5e-7, 1e-5, 2e-9):
+        for t in ([{"x": eps, "y": 1}, 1], [{"x": 1, "y": eps}, 2], [{"x": eps, "y": -1}, 0]):
+            yield {"fam": "planted", "L": [t, [{"y": 1}, 5]], "G": []}
+            yield {"fam": "planted", "L": [t, [{"x": 1}, 7]], "G": [[{"y": -1}, 3]]}
+            yield {"fam": "planted", "L": [t], "G": [[{"x": 1}, 900]]}
     # sequences of look-alike systems (equal to 4 significant digits) simplified one after the other in one process
     for a, b in ((2.5, 2.5004), (1000, 1000.04), (0.12341, 0.12344)):
         yield {"fam": "seq", "seq": [{"L": [[{"x": 1}, a], [{"x": 1}, a + 1]], "G": []}, {"L": [[{"x": 1}, b], [{"x": 1}, b + 1]], "G": []}]}
